@@ -100,17 +100,47 @@ fn relevant(pre: &Snap, msg: &Msg) -> Snap {
     s
 }
 
+/// The message with every name (owners, NS/CNAME targets) in lower case: zone names are stored in
+/// lower case, relevance and rendering work on this form; what is executed keeps its spelling.
+fn lower_msg(msg: &Msg) -> Msg {
+    let lo = |r: &Rr| -> Rr {
+        let mut r = r.clone();
+        r.name = vref::wire::lower(&r.name);
+        if let Some(t) = rdata_target(&r) {
+            let mut rd = vec![];
+            vref::wire::emit_name(&vref::wire::lower(&t), &mut rd);
+            r.rdata = rd;
+        }
+        r
+    };
+    Msg { prereqs: msg.prereqs.iter().map(lo).collect(), updates: msg.updates.iter().map(lo).collect() }
+}
+
+fn render_cased(zone: &Snap, msg: &Msg, cur: u32) -> String {
+    let l = lower_msg(msg);
+    let r = render(zone, &l, cur);
+    if l != *msg {
+        format!("{r} (names of the message spelled in another case)")
+    } else {
+        r
+    }
+}
+
 impl Keyer {
     pub fn new() -> Keyer {
         Keyer { memo: RwLock::new(HashMap::new()), witnesses: RwLock::new(HashMap::new()) }
     }
 
     pub fn key(&self, w: &Worker, f: &Finding, pre: &Snap, msg: &Msg) -> String {
+        if f.clause.starts_with("dnssec:") {
+            // signed-zone clauses carry their own abstract scene
+            return f.clause.clone();
+        }
         if f.clause == "panic" {
             // keyed by what panicked (message + source file); no witness needed
             return format!("panic:{}", f.detail);
         }
-        let sub = relevant(pre, msg);
+        let sub = relevant(pre, &lower_msg(msg));
         let k0 = (vupd::digest(&(&f.clause, &f.detail, msg, &sub)), vupd::digest(&(1u8, &sub, msg, &f.detail, &f.clause)));
         if let Some(k) = self.memo.read().unwrap().get(&k0) {
             return k.clone();
@@ -154,7 +184,7 @@ impl Keyer {
             zone = pre.clone();
             if !self.fails(w, f, &zone, &msg) {
                 // not reproducible from the observable state alone: name it by the message only
-                return format!("{}[{}]:unminimised:{}", f.clause, f.detail, render(&Snap::default(), &msg, pre.serial().unwrap_or(0)));
+                return format!("{}[{}]:unminimised:{}", f.clause, f.detail, render_cased(&Snap::default(), &msg, pre.serial().unwrap_or(0)));
             }
         }
         // atoms: whole sections first (a set-valued prerequisite cannot be removed RR by RR), then
@@ -198,6 +228,11 @@ impl Keyer {
             if msg == before {
                 break;
             }
+        }
+        // spelling: if the lower-case message fails the same way, the case of its names does not matter
+        let lowered = lower_msg(&msg);
+        if lowered != msg && self.fails(w, f, &zone, &lowered) {
+            msg = lowered;
         }
         // zone elements (never the apex SOA, never the last apex NS)
         let mut i = 0;
@@ -270,7 +305,7 @@ impl Keyer {
             self.record_witness(&key, &zone, &msg);
             return key;
         }
-        let key = format!("{}{}:{}", f.clause, detail, render(&zone, &msg, zone.serial().unwrap_or(0)));
+        let key = format!("{}{}:{}", f.clause, detail, render_cased(&zone, &msg, zone.serial().unwrap_or(0)));
         self.record_witness(&key, &zone, &msg);
         key
     }
